@@ -118,7 +118,8 @@ Theorem C19_strict_loose : forall cfg sc c0 evs c sp r sent o,
   st_calls (run_schedule cfg sc (init c0) evs) c = PDone sent o ->
   match b_class (r_body r) with
   | BValid => o = OkBody (r_body r)
-  | BUnknownField | BDuplicateField => if cfg_strict cfg then o = Err else o = OkBody (r_body r)
+  | BUnknownField | BDuplicateField | BUnknownAndDuplicate =>
+      if cfg_strict cfg then o = Err else o = OkBody (r_body r)
   | BInvalidJson => o = Err
   end.
 Proof.
@@ -141,6 +142,28 @@ Proof.
     try (left; reflexivity); right; split; try reflexivity; discriminate.
 Qed.
 Print Assumptions C19_strict_loose_cached.
+
+(* Whatever the status, the schedule and the origin of the body (this response
+   or the ETag cache): a call never succeeds with a value decoded from text the
+   mode rejects - in strict mode never from a body with unknown or duplicate
+   fields (the constant `accepted_body_ok` is the clause
+   strict-invalid-accepted-on-replay of the correspondence check). *)
+Theorem C19_no_rejected_body_accepted : forall cfg sc c0 evs c sent b,
+  st_calls (run_schedule cfg sc (init c0) evs) c = PDone sent (OkBody b) ->
+  accepted_body_ok cfg (OkBody b) = true /\
+  b_class b <> BInvalidJson /\
+  (cfg_strict cfg = true -> b_class b = BValid).
+Proof.
+  intros cfg sc c0 evs c sent b H.
+  destruct (done_moment cfg sc c0 evs c sent _ H) as [evs1 [evs2 [sp [_ [_ [_ Hf]]]]]].
+  destruct (finish_ok_inv _ _ _ _ _ _ _ Hf) as [r [_ [_ [_ [_ [_ Hd]]]]]].
+  pose proof (decode_acceptable cfg b b Hd) as Ha.
+  split; [exact Ha|]. unfold body_acceptable in Ha.
+  split.
+  - intro E. rewrite E in Ha. discriminate Ha.
+  - intro Hs. rewrite Hs in Ha. destruct (b_class b); try discriminate Ha. reflexivity.
+Qed.
+Print Assumptions C19_no_rejected_body_accepted.
 
 (* any other status, a transport error (timeout), an unreadable body: error *)
 Theorem C19_other_is_error : forall cfg sc c0 evs c sp sent o,
@@ -185,7 +208,7 @@ Print Assumptions C19_three_steps_finish.
 (* The executable clauses the correspondence check evaluates on the
    IMPLEMENTATION's outcomes (Model/Webhook.v call_clauses: non-200-accepted,
    wrong-retry-delay, error-accepted, 304-body-not-for-sent-etag, the decoding
-   clause, plain-sent-if-none-match) hold of every finished call of every
+   clause, strict-invalid-accepted-on-replay, plain-sent-if-none-match) hold of every finished call of every
    schedule of the model. *)
 Theorem C19_clauses_hold : forall cfg sc c0 evs c sp sent o,
   get_spec sc c = Some sp ->
@@ -250,6 +273,16 @@ Proof. vm_compute. repeat split; reflexivity. Qed.
 
 (* strict mode stores a body with an unknown field under its ETag and rejects
    it; a later 304 re-serves that body and is rejected again (loose: accepted) *)
+Example C19_strict_cached_both_412 :
+  let bb := mkBody 6 BUnknownAndDuplicate in
+  let r412 := mkResp 412 "" RAAbsent (mkBody 0 BInvalidJson) false in
+  let sc := [mkCall 7 (Reply (mkResp 200 "e6" RAAbsent bb false)); mkCall 7 (Reply r412); mkCall 7 (Reply ex_r304)] in
+  let evs := [Step 0; Step 0; Step 0; Step 1; Step 1; Step 1; Step 2; Step 2; Step 2] in
+  let st := run_schedule (mkCfg true true) sc (init empty_cache) evs in
+  st_calls st 0%Z = PDone "" Err /\ st_calls st 1%Z = PDone "e6" Err /\ st_calls st 2%Z = PDone "e6" Err /\
+  st_cache st 7%Z = Some (mkEntry "e6" bb).
+Proof. vm_compute. repeat split; reflexivity. Qed.
+
 Example C19_strict_cached_unknown :
   let bu := mkBody 5 BUnknownField in
   let sc := [mkCall 7 (Reply (mkResp 200 "e5" RAAbsent bu false)); mkCall 7 (Reply ex_r304)] in
